@@ -475,7 +475,7 @@ int main(int argc, char ** argv) {
             std::string err = vx::read_tail(errfile, 3000), sum;
             std::istringstream es(err);
             for (std::string line; std::getline(es, line);) if (line.find("SUMMARY") != std::string::npos || line.find("runtime error") != std::string::npos) { sum = line; break; }
-            printf("{\"harness\":\"codec\",\"mode\":\"c02\",\"class\":\"%s\",\"evaluations\":1,\"distinct\":0,\"samples\":[],\"violations\":[{\"prop\":\"C02\",\"key\":\"%s|crash\",\"what\":\"crash / sanitizer report while decoding or encoding the image with %d byte(s) at offset %ld overwritten (value/pattern %d): %s\",\"spec\":\"%s\",\"count\":1}],\"wall_s\":0}\n",
+            printf("\n{\"harness\":\"codec\",\"mode\":\"c02\",\"class\":\"%s\",\"evaluations\":1,\"distinct\":0,\"samples\":[],\"violations\":[{\"prop\":\"C02\",\"key\":\"%s|crash\",\"what\":\"crash / sanitizer report while decoding or encoding the image with %d byte(s) at offset %ld overwritten (value/pattern %d): %s\",\"spec\":\"%s\",\"count\":1}],\"wall_s\":0}\n",
                    vx::jesc(imgs[i].first).c_str(), vx::jesc(imgs[i].first).c_str(), g_cur2->width, g_cur2->off, g_cur2->val, vx::jesc(sum).c_str(), vx::jesc(imgs[i].first).c_str());
             rc = 1;
         }
@@ -546,7 +546,7 @@ int main(int argc, char ** argv) {
         std::string sum;
         std::istringstream es(err);
         for (std::string line; std::getline(es, line);) if (line.find("SUMMARY") != std::string::npos || line.find("runtime error") != std::string::npos) { sum = line; break; }
-        printf("{\"harness\":\"codec\",\"mode\":\"%s\",\"class\":\"%s\",\"evaluations\":1,\"distinct\":1,\"samples\":[],\"violations\":[{\"prop\":\"%s\",\"key\":\"%s|%s\",\"what\":\"%s while encoding/decoding (%s) %s\",\"spec\":\"%s\",\"count\":1}],\"wall_s\":0}\n",
+        printf("\n{\"harness\":\"codec\",\"mode\":\"%s\",\"class\":\"%s\",\"evaluations\":1,\"distinct\":1,\"samples\":[],\"violations\":[{\"prop\":\"%s\",\"key\":\"%s|%s\",\"what\":\"%s while encoding/decoding (%s) %s\",\"spec\":\"%s\",\"count\":1}],\"wall_s\":0}\n",
                mode.c_str(), c.name, mode == "c17" ? "C17" : "C03", vx::jesc(g_cur->key).c_str(), kind.c_str(), kind.c_str(),
                WIFSIGNALED(status) ? ("signal " + std::to_string(WTERMSIG(status))).c_str() : ("exit " + std::to_string(WEXITSTATUS(status))).c_str(),
                vx::jesc(sum).c_str(), vx::jesc(g_cur->label).c_str());
